@@ -57,6 +57,10 @@ CHECKS = {
 
  "C29": dict(cat="exploration", tech="deterministic simulation: seeded cooperative scheduler (backup thread vs writer thread, backup file operations are scheduling points) + restore and model comparison",
    text="nervusdb::backup runs concurrently with a generated writer history (and, separately, quiescently); the restored copy must open and equal one model state between the operations acknowledged before the backup began and those begun before it returned.", ref="§3 C29"),
+ "C32": dict(cat="exploration", tech="deterministic simulation: simulated wall clock (stalled / coarse / backwards-stepping regimes) behind the node-id allocation sites, create-heavy C API sessions",
+   text="Create-heavy sessions (CREATE, UNWIND..CREATE of up to 20 nodes, MERGE creates, deletes, compaction, reopen) under per-run clock regimes; no create may fail, identities must be pairwise distinct, never reused and stable across compaction and reopen.", ref="§3 C32"),
+ "C33": dict(cat="exploration", tech="deterministic simulation: simulated monotonic clock whose deadline crossing is swept over every clock read of the query, plus PRNG-chosen row/collection limits; comparison with the unlimited result",
+   text="14 query shapes with large intermediates on generated graphs run unlimited, under random limit sets and under a soft timeout that expires at the i-th clock read for every i; each outcome must be the complete result or a resource-limit error, and the query must stop within 64 further clock reads once the deadline is observable (a watchdog on the simulated clock catches queries that never stop).", ref="§3 C33"),
  "C35": dict(cat="exploration", tech="deterministic simulation: seeded cooperative scheduler with exact all-threads-blocked detection, lock-order graph as evidence",
    text="2-5 threads with PRNG mixes of transactions, compaction, index creation, snapshot reads, index lookups, statistics reads, vector insertion/search and new-label creation; a violation is the exact deadlock condition (every unfinished thread parked on a lock) or no completion within the step cap; the observed lock-order graph with gate locks is reported in the evidence.", ref="§3 C35"),
 }
